@@ -149,12 +149,13 @@ NAMES_OK_EXPECT = None
 
 def name_menu():
     names = ["x", "y", "X1", "alpha", "theta", "a_b", "_", "__", "_x", "x_", "1", "2x", "007", "x2", "é", "ß", "变量",
-             "λ", "Ω2", "x²", "٣", "ñandú", "a1b2c3", "CamelCase", "snake_case_name", "A" * 64]
+             "λ", "Ω2", "x²", "٣", "ñandú", "a1b2c3", "CamelCase", "snake_case_name", "A" * 64,
+             "µ", "μ", "Å", "Å", "ﬁ", "x₂", "ſ", "ｘ", "ª", "ǆ", "e\u0301"[:1] + "1"]
     names += ["class", "def", "lambda", "None", "True", "import", "pass", "is", "in", "not"]
     names += ["self", "point", "variable", "kwargs", "other", "name", "value", "inner", "n", "base", "args", "left",
               "right", "expression", "compute_early", "_private", "variable_name", "variable_names", "cls", "whatever",
               "multiplier", "accumulator", "exponent", "coordinates", "_coordinates"]
-    bad = ["", " ", "a b", "a-b", "a\n", "\n", "é!", "x.y", "x+y", "a,b", "x=1", "(x)", "x ", " x", "a\tb", "​", "a b", "$x", "x'"]
+    bad = ["\u338f", "x\u2122", "\u2116", "e\u0301", "\u00bd\u2044", "x\u00b7y", "\u2460\u20dd", "", " ", "a b", "a-b", "a\n", "\n", "é!", "x.y", "x+y", "a,b", "x=1", "(x)", "x ", " x", "a\tb", "​", "a b", "$x", "x'"]
     foreign = [3, None, 2.5, ("x",), ["x"], b"x"]
     return names, bad, foreign
 
@@ -321,6 +322,11 @@ def c17_term(fam, t, st: Stats):
                 for label, (flags, fn) in routes.entries.items():
                     if "number" in flags and not complete:
                         continue
+                    if complete and "number" not in flags and env is grid[0]:
+                        ox = fn({**env, EXTRA: 5})          # a point with a coordinate the expression does not use
+                        st.inc("transitions")
+                        if not admissible(ox):
+                            flag(label + " (point with an extra coordinate)", env, ox, {"variable": v})
                     o = fn(env)
                     st.inc("transitions")
                     st.outcome(o[0])
